@@ -1,7 +1,175 @@
-import CoclsModel.SharedFuture
-/-! # C17 — property theorems (placeholder while the invariant proofs are being written) -/
+import CoclsModel.SharedFutureTrace
+/-!
+# C17 — shared_future: one result for all copies; state lives exactly as long as needed
+
+Model: `CoclsModel/SharedFuture.lean` (micro-steps: one step of a thread = plain code up to and including its next atomic
+operation; copying / dropping a handle is an atomic reference-count step).  A configuration `c : Cfg` fixes the
+construction path (`Mode`: constructor from a promise function, constructor from a future-returning function, late
+initialisation through `get_promise()`, `init_if_needed()` + `operator<<`, ready-made factories), ANY number `c.n` of
+threads, ANY program of copy / drop / peek / await (coroutine, blocking, callback) per thread, and the resolver kind
+(value, exception, drop, promise destroyed).  Every theorem quantifies over all configurations of the repaired code
+(`Fixed c`) and over ALL schedules `sched : List Nat` (interleavings at atomic-operation granularity), by induction.
+
+`runEv c sched` is the run from the initial state together with the printed events; `run c (init c) sched` its state.
+-/
 namespace Cocls.SharedFuture
 
-theorem c17_placeholder (c : Cfg) : (init c).refs = 1 := rfl
+/-- **One result for all copies.** Whatever the schedule, every observation of the result — by the await of any thread
+through its own copy, in any style (coroutine, blocking `wait()`, callback) or by `ready()`+`value()` — is the single
+result fixed by the configuration (`resultObs`: the resolver's value / exception, `canceled` for a dropped or destroyed
+promise, the factory's value). -/
+theorem c17_same_result (c : Cfg) (hf : Fixed c) (hn : 0 < c.n) (sched : List Nat) (x : Nat) (k : WK) (o : Obs)
+    (h : Ev.obs x k o ∈ (runEv c sched).2) : o = resultObs c :=
+  obsGood_runEv hf hn sched x k o h
+
+/-- **Never more than once.** In every reachable state each awaiter has been woken at most once and has observed the
+result at most once, and the number of observation events printed for it is exactly its counter. -/
+theorem c17_awaiters_at_most_once (c : Cfg) (hf : Fixed c) (hn : 0 < c.n) (sched : List Nat) (x : Nat) :
+    (run c (init c) sched).woken x ≤ 1 ∧ (run c (init c) sched).observed x ≤ 1 ∧
+    (runEv c sched).2.countP (isAwObs x) = (run c (init c) sched).observed x := by
+  have h := inv_run hf sched _ (inv_init c hf hn)
+  refine ⟨?_, ?_, ?_⟩
+  · have := h.wake x
+    have h1 : (if (run c (init c) sched).subscribed x = true then 1 else 0) ≤ 1 := by split <;> omega
+    omega
+  · have := h.obsv x
+    have h1 : (if (run c (init c) sched).awaited x = true then 1 else 0) ≤ 1 := by split <;> omega
+    omega
+  · have := (acc_runEv c sched).1 x
+    rw [runEv_fst] at this
+    simpa [init] using this
+
+/-- **Exactly once.** When every thread has finished: every thread that awaited (in whatever style, subscribed or
+refused because the result was already there) observed the result exactly once, every subscribed awaiter was woken
+exactly once, and exactly that many observation events were printed. -/
+theorem c17_awaiters_once (c : Cfg) (hf : Fixed c) (hwf : WF c) (sched : List Nat)
+    (hq : Quiescent c (run c (init c) sched)) (x : Nat) :
+    (run c (init c) sched).observed x = (if (run c (init c) sched).awaited x then 1 else 0) ∧
+    (run c (init c) sched).woken x = (if (run c (init c) sched).subscribed x then 1 else 0) ∧
+    (runEv c sched).2.countP (isAwObs x) = (if (run c (init c) sched).awaited x then 1 else 0) := by
+  have h := inv_run hf sched _ (inv_init c hf hwf.1)
+  have hfacts := quiescent_facts hq h hwf.hasResolver
+  refine ⟨hfacts.1 x, hfacts.2.1 x, ?_⟩
+  rw [(c17_awaiters_at_most_once c hf hwf.1 sched x).2.2]
+  exact hfacts.1 x
+
+/-- **No lost wake-up.** A reachable state in which no thread can take a step is quiescent: no awaiter (in particular
+no thread blocked in `wait()`) is left behind, whatever the order of subscription, resolution and handle drops. -/
+theorem c17_no_lost_wakeup (c : Cfg) (hf : Fixed c) (hwf : WF c) (sched : List Nat)
+    (hst : ∀ t, enabled (run c (init c) sched) t = false) : Quiescent c (run c (init c) sched) :=
+  not_stuck (inv_run hf sched _ (inv_init c hf hwf.1)) hwf hst
+
+/-- **Alive until resolved.** While the future is pending the shared state has not been freed and at least one
+reference exists — whatever the handle threads did (in particular after every one of them dropped every handle). -/
+theorem c17_alive_until_resolved (c : Cfg) (hf : Fixed c) (hn : 0 < c.n) (sched : List Nat)
+    (hp : (run c (init c) sched).slot ≠ Slot.ready) :
+    (run c (init c) sched).freed = 0 ∧ 1 ≤ (run c (init c) sched).refs :=
+  inv_alive_pending (inv_run hf sched _ (inv_init c hf hn)) hp
+
+/-- **Freed at most once, by the step that drops the last reference.** `freed ≤ 1` in every reachable state, the state
+is freed exactly when no reference is left, the reference count is the number of owners (handles held by threads,
+handles owned by waiting coroutine frames / callback contexts, the tracer), and the printed `freed` events are exactly
+the counter. -/
+theorem c17_freed_at_most_once (c : Cfg) (hf : Fixed c) (hn : 0 < c.n) (sched : List Nat) :
+    (run c (init c) sched).freed ≤ 1 ∧
+    ((run c (init c) sched).freed = 1 ↔ (run c (init c) sched).refs = 0) ∧
+    (run c (init c) sched).refs = (run c (init c) sched).holders.length ∧
+    (runEv c sched).2.countP isFreedEv = (run c (init c) sched).freed := by
+  have h := inv_run hf sched _ (inv_init c hf hn)
+  refine ⟨inv_freed_le_one h, ?_, h.refsLen, ?_⟩
+  · rw [h.freedIff]; split <;> simp [*]
+  · have := (acc_runEv c sched).2
+    rw [runEv_fst] at this
+    simpa [init] using this
+
+/-- **No leak.** When every thread has finished, the state has been freed exactly once (and exactly one `freed` event
+was printed): neither the tracer nor a forgotten context keeps it. -/
+theorem c17_freed_once (c : Cfg) (hf : Fixed c) (hwf : WF c) (sched : List Nat)
+    (hq : Quiescent c (run c (init c) sched)) :
+    (run c (init c) sched).freed = 1 ∧ (run c (init c) sched).refs = 0 ∧ (runEv c sched).2.countP isFreedEv = 1 := by
+  have h := inv_run hf sched _ (inv_init c hf hwf.1)
+  have := quiescent_freed hq h hwf.hasResolver
+  exact ⟨this.1, this.2, by rw [(c17_freed_at_most_once c hf hwf.1 sched).2.2.2, this.1]⟩
+
+/-- **No use after free.** `uaf` counts the accesses to the shared state or its control block (every operation on the
+awaiter slot, `set`, reading the result, the tracer's fields, every reference-count operation) made after the state was
+freed: it is 0 in every reachable state. -/
+theorem c17_no_use_after_free (c : Cfg) (hf : Fixed c) (hn : 0 < c.n) (sched : List Nat) :
+    (run c (init c) sched).uaf = 0 :=
+  (inv_run hf sched _ (inv_init c hf hn)).noUaf
+
+/-- **The tracer is subscribed first, hence released last.** Whenever the tracer is in the chain it is the bottom
+element; once the object is constructed and while it is pending, the tracer IS in the chain (exactly once) — so the
+walker (the chain is LIFO) visits it after every other node. -/
+theorem c17_tracer_last (c : Cfg) (hf : Fixed c) (hn : 0 < c.n) (sched : List Nat) :
+    (Node.tracer ∈ chainOf (run c (init c) sched).slot → (chainOf (run c (init c) sched).slot).getLast? = some Node.tracer) ∧
+    ((run c (init c) sched).slot ≠ Slot.ready → (run c (init c) sched).constructed = true →
+      Node.tracer ∈ chainOf (run c (init c) sched).slot ∧ (chainOf (run c (init c) sched).slot).count Node.tracer = 1) := by
+  have h := inv_run hf sched _ (inv_init c hf hn)
+  exact ⟨h.tracerLast, fun hp hc => ⟨(inv_tracer_in_chain h hp hc).1, (inv_tracer_in_chain h hp hc).2.2⟩⟩
+
+/-- **Late initialisation.** A default-constructed object initialised through `get_promise()` (mode `gp`; the same
+holds for `init_if_needed()` + `operator<<`, mode `ls`) never crashes, and once the construction is complete the promise
+has been handed out and, while pending, the tracer holds the extra reference — i.e. it behaves like any other
+shared_future (all theorems above cover these modes). -/
+theorem c17_late_init (c : Cfg) (hf : Fixed c) (hn : 0 < c.n) (hm : c.mode = Mode.gp ∨ c.mode = Mode.ls) (sched : List Nat) :
+    (run c (init c) sched).crashed = false ∧
+    ((run c (init c) sched).constructed = true →
+      (run c (init c) sched).published = true ∧
+      ((run c (init c) sched).slot ≠ Slot.ready → (run c (init c) sched).tracerRef = true)) := by
+  have h := inv_run hf sched _ (inv_init c hf hn)
+  have hpm : c.mode.hasPromise = true := by rcases hm with e | e <;> (rw [e]; rfl)
+  refine ⟨h.noCrash, fun hc => ⟨?_, fun hp => ?_⟩⟩
+  · cases hq : (run c (init c) sched).published
+    · have h1 := h.pubCtor hq hpm
+      cases hq0 : (run c (init c) sched).pc 0 with
+      | cRun is => have := (h.aCtor 0 is hq0).2.1; rw [hc] at this; cases this
+      | _ => simp [hq0, isCtor] at h1
+    · rfl
+  · rcases h.alive hp with h1 | h1
+    · exact h1
+    · cases hq0 : (run c (init c) sched).pc 0 with
+      | cRun is => have := (h.aCtor 0 is hq0).2.1; rw [hc] at this; cases this
+      | _ => simp [hq0, isCtor] at h1
+
+/-! ## Non-vacuity: concrete reachable states that meet the hypotheses -/
+
+/-- creator awaits in a coroutine, a handle thread blocks in `wait()` and drops, a third uses a callback; value 5 -/
+def exCfg : Cfg :=
+  { n := 4, mode := Mode.pf, rtid := 3, rk := RK.value 5,
+    prog := fun t => if t = 0 then [Act.await WK.coro] else if t = 1 then [Act.copy, Act.await WK.sync, Act.drop]
+                     else if t = 2 then [Act.await WK.cb] else [] }
+
+def exSched : List Nat := [0, 0, 0, 0, 0, 0, 0, 1, 1, 1, 1, 2, 2, 2, 2, 3, 3, 3, 3, 1, 1, 3, 3]
+
+example : Fixed exCfg ∧ WF exCfg := ⟨⟨rfl, rfl⟩, by decide, by decide⟩
+example : (run exCfg (init exCfg) exSched).freed = 1 ∧ (run exCfg (init exCfg) exSched).refs = 0 := by decide
+example : ((List.range 4).all fun t => (run exCfg (init exCfg) exSched).pc t == Pc.done) = true := by decide
+example : ((List.range 3).all fun t => (run exCfg (init exCfg) exSched).observed t == 1) = true := by decide
+example : (runEv exCfg exSched).2.countP isObsEv = 3 ∧ (runEv exCfg exSched).2.countP isFreedEv = 1 := by decide
+/-- every handle dropped while pending: the state is still alive (the tracer keeps it), and freed by the resolver -/
+def exDropCfg : Cfg := { n := 3, mode := Mode.ff, rtid := 2, rk := RK.exc 7, prog := fun _ => [Act.drop] }
+example : (run exDropCfg (init exDropCfg) [0, 0, 0, 0, 0, 1]).slot ≠ Slot.ready ∧
+    (run exDropCfg (init exDropCfg) [0, 0, 0, 0, 0, 1]).refs = 1 ∧ (run exDropCfg (init exDropCfg) [0, 0, 0, 0, 0, 1]).freed = 0 ∧
+    (run exDropCfg (init exDropCfg) [0, 0, 0, 0, 0, 1]).held 0 = 0 ∧ (run exDropCfg (init exDropCfg) [0, 0, 0, 0, 0, 1]).held 1 = 0 := by decide
+example : (run exDropCfg (init exDropCfg) [0, 0, 0, 0, 0, 1, 2, 2, 2]).freed = 1 := by decide
+/-- late initialisation through `get_promise()` -/
+def exGpCfg : Cfg := { n := 2, mode := Mode.gp, rtid := 1, rk := RK.value 1, prog := fun _ => [Act.await WK.sync] }
+example : (run exGpCfg (init exGpCfg) [0, 0, 0, 0, 0]).constructed = true ∧ (run exGpCfg (init exGpCfg) [0, 0, 0, 0, 0]).tracerRef = true := by decide
+
+/-! ## The two defects of the pinned commit, as-is variants of the step, certified on concrete runs -/
+
+/-- `init_if_needed()` as pinned (`if (_ptr)` instead of `if (!_ptr)`): `get_promise()` on a default-constructed object
+dereferences null — the first step of the creator crashes (replayed on the real headers: corpus/c17_late_init.txt) -/
+theorem c17_asis_late_init_crashes :
+    (run { exGpCfg with asIsInit := true } (init { exGpCfg with asIsInit := true }) [0]).crashed = true := by decide
+
+/-- `operator<<` as pinned (tracer not wired): with every handle dropped while pending the state is freed while the
+promise still points at it, and the resolution then writes into freed memory (corpus/c17_lshift_tracer.txt) -/
+def exLsAsIs : Cfg := { n := 2, mode := Mode.ls, rtid := 1, rk := RK.value 3, prog := fun _ => [Act.drop], asIsLshift := true }
+
+theorem c17_asis_lshift_freed_while_pending :
+    (run exLsAsIs (init exLsAsIs) [0, 0, 0]).freed = 1 ∧ (run exLsAsIs (init exLsAsIs) [0, 0, 0]).slot ≠ Slot.ready ∧
+    (run exLsAsIs (init exLsAsIs) [0, 0, 0, 1, 1]).uaf = 1 := by decide
 
 end Cocls.SharedFuture
